@@ -347,8 +347,10 @@ printf("%04x %d\n", operands[n].value, operands[n].type);
                 operands[0].value < -128 ||
                 operands[0].value > 0xff)
             {
+              if (check_range(asm_context, "Address", operands[0].value, -32768, 0xffff) == -1) { return -1; }
+
               add_bin8(asm_context, n, IS_OPCODE);
-              add_bin8(asm_context, operands[0].value >> 8, IS_OPCODE);
+              add_bin8(asm_context, (operands[0].value >> 8) & 0xff, IS_OPCODE);
               add_bin8(asm_context, operands[0].value & 0xff, IS_OPCODE);
 
               return 3;
@@ -367,8 +369,10 @@ printf("%04x %d\n", operands[n].value, operands[n].type);
                 operands[0].value < -128 ||
                 operands[0].value > 0xff)
             {
+              if (check_range(asm_context, "Address", operands[0].value, -32768, 0xffff) == -1) { return -1; }
+
               add_bin8(asm_context, n, IS_OPCODE);
-              add_bin8(asm_context, operands[0].value >> 8, IS_OPCODE);
+              add_bin8(asm_context, (operands[0].value >> 8) & 0xff, IS_OPCODE);
               add_bin8(asm_context, operands[0].value & 0xff, IS_OPCODE);
 
               return 3;
@@ -691,8 +695,10 @@ printf("%04x %d\n", operands[n].value, operands[n].type);
               operands[0].type == OPERAND_ADDRESS &&
               operands[1].type == OPERAND_SP)
           {
+            if (check_range(asm_context, "Offset", operands[0].value, -32768, 0xffff) == -1) { return -1; }
+
             add_bin16(asm_context, m68hc08_16_table[n].opcode, IS_OPCODE);
-            add_bin8(asm_context, operands[0].value >> 8, IS_OPCODE);
+            add_bin8(asm_context, (operands[0].value >> 8) & 0xff, IS_OPCODE);
             add_bin8(asm_context, operands[0].value & 0xff, IS_OPCODE);
 
             return 4;
